@@ -190,6 +190,7 @@ func drawSource(t *rapid.T, cfg vmx.Cfg, env *gen.Env, s *rt.Section, prev strin
 	o := gen.DefaultOpts()
 	o.Dice, o.CoC, o.WoD, o.Fate, o.DC = true, true, true, true, true
 	o.MaxStmts, o.MaxDepth = 4, 3
+	o.AssignExprAll = true
 	o.Avoid = s.Avoid
 	g := gen.NewG(t, o, env)
 	switch rapid.IntRange(0, 19).Draw(t, "srcKind") {
@@ -202,7 +203,8 @@ func drawSource(t *rapid.T, cfg vmx.Cfg, env *gen.Env, s *rt.Section, prev strin
 		tail, _ := g.Tail()
 		return p + tail, "program+tail"
 	case 12, 13, 14:
-		g.O.Hostile = 0.35
+		g.O.Hostile = 0.3
+		g.O.MaxStmts = 3
 		return gen.Print(g.Program()), "hostile-typed-program"
 	case 15, 16:
 		base := prev
